@@ -59,14 +59,15 @@ theorem C10_extracted (s0 : BSt) (h0 : Fresh s0) (_hc : s0.cfg.catchAllFormat = 
    fun st hm ho sid => C10_at_most_once_under_faults s0 h0.inv ops i st hm ho sid⟩
 
 /-- what the C08 theorems assume of the code, as extracted: only ordinary log events bump the failure counter, the
-    control requests retry, and the Flush path reports the counters before it removes contexts (the flag the witness
-    `C08_flush_cleanup_loses_count_unrepaired` shows to be necessary) -/
+    control requests retry, the Flush path reports the counters before it removes contexts, and the clean-up keeps a
+    context whose counter is non-zero (the flag `C08_removed_context_reported` carries as a hypothesis and the witness
+    `C08_count_lost_between_check_and_cleanup` shows to be necessary) -/
 theorem backendA_C08_structure :
     Extracted.countsOnlyLogEvents = true ∧ Extracted.flushRetries = true ∧
-    Extracted.reportBeforeFlushCleanup = true := by decide
+    Extracted.reportBeforeFlushCleanup = true ∧ Extracted.cleanupKeepsUnreported = true := by decide
 
-/-- C08 for the code as extracted: every started system with a dropping queue whose configuration carries the
-    extracted flag, every schedule: no call blocks and Σ discarded = reported + Σ fail over all contexts -/
+/-- C08 for the code as extracted: every started system with a dropping queue, every schedule: no call blocks and
+    Σ discarded = reported + Σ fail over all contexts -/
 theorem C08_extracted (s0 : BSt) (h0 : Started s0) (hd : s0.cfg.dropping = true)
     (_hf : s0.cfg.reportBeforeFlushCleanup = Extracted.reportBeforeFlushCleanup) (ops : List Op) :
     (∀ c ∈ ctrs (runOps s0 ops), c.2.2 = 0) ∧
@@ -74,9 +75,18 @@ theorem C08_extracted (s0 : BSt) (h0 : Started s0) (hd : s0.cfg.dropping = true)
       (runOps s0 ops).reported + ((ctrs (runOps s0 ops)).map (·.1)).sum :=
   C08_dropped_equals_reported_plus_pending s0 (C08_started_inv s0 h0) hd ops
 
-/-- the F17 schedule behaves as repaired for the extracted flag value -/
-theorem C08_f17_extracted :
-    ((runOps (c08Init Extracted.reportBeforeFlushCleanup) f17Sched).th 0).fail = 0 ∧
-    (runOps (c08Init Extracted.reportBeforeFlushCleanup) f17Sched).reported = 1 := by decide
+/-- a reclaimed context has no unreported drops, for every fresh system whose configuration carries the extracted
+    clean-up flag, every schedule -/
+theorem C08_removed_extracted (s0 : BSt) (h0 : Fresh s0)
+    (hk : s0.cfg.cleanupKeepsUnreported = Extracted.cleanupKeepsUnreported) (ops : List Op) (i : Nat)
+    (hr : ((runOps s0 ops).th i).removed = true) : ((runOps s0 ops).th i).fail = 0 :=
+  C08_removed_context_reported s0 (C08_fresh_reclaim_inv s0 h0 (hk.trans backendA_C08_structure.2.2.2)) ops i hr
+
+/-- the two witness schedules lose nothing for the extracted flag values -/
+theorem C08_witnesses_extracted :
+    ((runOps (c08Init Extracted.reportBeforeFlushCleanup Extracted.cleanupKeepsUnreported) f17Sched).th 0).fail = 0 ∧
+    (runOps (c08Init Extracted.reportBeforeFlushCleanup Extracted.cleanupKeepsUnreported) f17Sched).reported = 1 ∧
+    ((runOps (c08Init Extracted.reportBeforeFlushCleanup Extracted.cleanupKeepsUnreported) f23Sched).th 0).removed = false := by
+  decide
 
 end Obligations
